@@ -18,7 +18,7 @@ H1 = [0.5, 0.9, 1.2, 1.5, 1.8, 2.0, 2.2, 2.3, 2.5, 2.6, 2.8, 2.9, 3.1, 3.2, 3.5,
 
 
 def lin_idx(a, b):
-    return a * np.array(X0) + b
+    return a * np.array([1.0, 2.0, 3.0, 4.0]) + b       # self-contained: model functions are saved as source text
 
 
 def normal_density(x, mu=2.5, sigma=1.0):
